@@ -48,6 +48,7 @@ type Case struct {
 	Skey       string // witness key
 	Desc       string
 	DeadlineMS int
+	PollMS     int // > 0: run the feeder as a polling loop with this interval until the deadline
 }
 
 type server struct{ c *Case }
@@ -165,6 +166,12 @@ func runCase(c *Case) string {
 	f, err := omniwitness.ParseFeeder(c.Kind)
 	if err != nil {
 		return "harness: " + err.Error()
+	}
+	if c.PollMS > 0 {
+		// the polling loop the service runs: it may only end when its context ends (omniwitness.Main treats
+		// its return as fatal for the whole process)
+		err = f.FeedFunc()(ctx, cl, bw, client, time.Duration(c.PollMS)*time.Millisecond)
+		return fmt.Sprintf("returned early=%v err=%v", ctx.Err() == nil, err)
 	}
 	err = f.FeedFunc()(ctx, cl, bw, client, 0)
 	return fmt.Sprintf("returned err=%v", err)
